@@ -145,3 +145,128 @@ func C10_reject() {
 		sym.Assert(has, "valid sibling still resolved")
 	}
 }
+
+// ---------------------------------------------------------------- abstract containers
+
+const c10AbsSchema = `
+interface I { x: Int }
+type A implements I { x: Int a: Int }
+type B implements I { x: Int b: Int }
+union U = A | B
+type Query { is: [I] us: [U] ca: A cb: B k: Int }
+`
+
+// C10A / C10B are Resolver nodes bound to A / B with RegisterType; every
+// invocation is logged with the node's type.
+type C10A struct{ log *[]string }
+type C10B struct{ log *[]string }
+
+func (n *C10A) Resolve(field *ggql.Field, args map[string]interface{}) (interface{}, error) {
+	*n.log = append(*n.log, "A."+field.Name)
+	return int32(1), nil
+}
+
+func (n *C10B) Resolve(field *ggql.Field, args map[string]interface{}) (interface{}, error) {
+	*n.log = append(*n.log, "B."+field.Name)
+	return int32(2), nil
+}
+
+type c10AbsQuery struct {
+	log   *[]string
+	elems []interface{}
+}
+
+func (q *c10AbsQuery) Resolve(field *ggql.Field, args map[string]interface{}) (interface{}, error) {
+	switch field.Name {
+	case "query":
+		return q, nil
+	case "is", "us":
+		return q.elems, nil
+	case "ca":
+		return &C10A{q.log}, nil
+	case "cb":
+		return &C10B{q.log}, nil
+	case "k":
+		return int32(7), nil
+	}
+	return nil, nil
+}
+
+var c10AbsCases = []struct {
+	doc      string
+	offender string // the field that is not defined where it is selected
+	never    string // log entries that must not appear ("": the offender on any node)
+	needs    string // the selection is only reached when an element of this type exists
+}{
+	{"{k is{a}}", "a", "", ""},                                  // defined by an implementer, not by the interface
+	{"{k is{x b}}", "b", "", ""},                                //
+	{"{k is{x ...on I{a}}}", "a", "", ""},                       // inline fragment on the interface itself
+	{"{k is{...F}} fragment F on I{a}", "a", "", ""},            // named fragment on the interface
+	{"{k ca{x ...on I{a}}}", "a", "", ""},                       // abstract fragment under an object-typed field
+	{"{k ca{...on U{x}}}", "x", "", ""},                         // a union defines no fields
+	{"{k us{...on A{b}}}", "b", "A.b", "A"},                     // undefined in the fragment's own type
+	{"{k is{x ...on B{a}}}", "a", "B.a", "B"},                   //
+	{"{k ca{...F} cb{...F}} fragment F on I{a}", "a", "", ""},   // one fragment under two containers
+	{"{k us{...on I{b}}}", "b", "", ""},                         // interface fragment under a union-typed field
+	{"{k cb{...F} ca{...F}} fragment F on I{x a}", "a", "", ""}, // the other order
+	{"{k is{...on I{...on I{b}}}}", "b", "", ""},                // nested, same condition
+	{"{k is{x} ca{zz}}", "zz", "", ""},                          // defined nowhere (control)
+}
+
+// C10_abstract: a field selected where its container type does not define
+// it - the container being an interface, a union, or a fragment's abstract
+// type condition, with objects of several concrete types behind it in either
+// order - is an error naming it and no resolver is invoked with it.
+func C10_abstract() {
+	c := c10AbsCases[sym.Choice("case", len(c10AbsCases))]
+	var log []string
+	q := &c10AbsQuery{log: &log}
+	n := 1 + sym.Choice("elements", 2)
+	for k := 0; k < n; k++ {
+		if sym.Choice("element type", 2) == 0 {
+			q.elems = append(q.elems, &C10A{&log})
+		} else {
+			q.elems = append(q.elems, &C10B{&log})
+		}
+	}
+	root := ggql.NewRoot(q)
+	if err := root.ParseString(c10AbsSchema); err != nil {
+		panic("harness schema rejected: " + err.Error())
+	}
+	if root.RegisterType(&C10A{}, "A") != nil || root.RegisterType(&C10B{}, "B") != nil {
+		panic("harness: RegisterType refused")
+	}
+	if sym.Choice("warm", 2) == 1 {
+		_ = root.ResolveString("{ca{a} cb{b} is{x} us{__typename}}", "", nil)
+		log = log[:0]
+	}
+	reached := c.needs == ""
+	for _, e := range q.elems {
+		if _, isA := e.(*C10A); isA == (c.needs == "A") {
+			reached = true
+		}
+	}
+	if sym.Known("C10-undefined-field-in-unreached-selection", !reached) {
+		return
+	}
+	res := root.ResolveString(c.doc, "", nil)
+	sym.Observe("res", res)
+	errs, _ := res["errors"].([]interface{})
+	sym.Assert(len(errs) > 0, "an error is reported")
+	found := false
+	for _, e := range errs {
+		em, _ := e.(map[string]interface{})
+		msg, _ := em["message"].(string)
+		found = found || sym.Contains(msg, c.offender)
+	}
+	sym.Assert(found, "the error names the offender")
+	for _, l := range log {
+		if c.never != "" {
+			sym.Assert(l != c.never, "undefined field never reaches a resolver")
+		} else {
+			sym.Assert(l != "A."+c.offender && l != "B."+c.offender, "undefined field never reaches a resolver")
+		}
+	}
+	data, _ := res["data"].(map[string]interface{})
+	sym.Assert(data != nil && data["k"] != nil, "valid sibling still resolved")
+}
